@@ -46,6 +46,9 @@ pub fn compare(exp: &Outcome, got: &realrun::RealOutcome) -> Option<(String, Str
             return Some(("global".into(), format!("global {n}: reference {}, implementation {}", e.short(), g.short())));
         }
     }
+    if let Some(c) = got.host_checks.first() {
+        return Some(("host-reentry-heights".into(), c.clone()));
+    }
     if let Some(p) = &got.clear_panic {
         return Some(("panic-in-clear".into(), format!("clearing / dropping the VM after the run panicked: {p}")));
     }
